@@ -81,7 +81,22 @@ impl<'a> Gen<'a> {
     }
 
     fn diverger(&mut self) -> G {
-        match self.w.below(4) {
+        match self.w.below(5) {
+            4 => {
+                // a depth-first sub-search whose first alternative diverges silently: the block
+                // never gets to its second alternative, and must not hold up its siblings either
+                let stall = self.leaf(Tail::Stall, 0);
+                let stall = match stall {
+                    G::Leaf(mut l) => {
+                        l.answers.clear();
+                        G::Leaf(l)
+                    }
+                    other => other,
+                };
+                let id = self.next_leaf;
+                self.next_leaf += 1;
+                G::Dfs(vec![G::Conde(vec![vec![stall], vec![G::Eq(T::V(0), T::I(900_000 + id as i64))]])])
+            }
             0 => G::Call(Rel::Never, vec![]),
             1 => G::Anyo(vec![G::Fail]),
             2 => self.leaf(Tail::Stall, 0),
@@ -420,6 +435,25 @@ impl Check for C07Check {
                 if let Some(b) = payload.downcast_ref::<proto_vulcan::verif_sim::BudgetExceeded>() {
                     if b.work_cap || work_capped {
                         *facts.faults.entry("timeout").or_insert(0) += 1;
+                        // These programs contain no committed-choice operator, so no engine step
+                        // legitimately loops: the depth of the stream tree bounds the work of one
+                        // quantum. Work running out long before the quanta do means some quantum
+                        // did not return, i.e. one branch held the scheduler.
+                        if quanta_used.saturating_mul(2_000) < b.work {
+                            return CaseResult {
+                                verdict: Verdict::Violation {
+                                    class: "scheduling-quantum-did-not-return".into(),
+                                    detail: format!(
+                                        "{} engine steps were spent in only {} scheduling quanta (still missing q values {:?}); {}",
+                                        b.work,
+                                        quanta_used,
+                                        missing,
+                                        detail_alone.join("; ")
+                                    ),
+                                },
+                                facts,
+                            };
+                        }
                         return CaseResult { verdict: Verdict::Inconclusive("work cap before quanta bound".into()), facts };
                     }
                     *facts.faults.entry("timeout").or_insert(0) += 1;
